@@ -166,6 +166,7 @@ def run(ctx):
                classify=lambda l, o: "script" if any(x.startswith("script") for x in l) else "healthy")
     ctx.stream("pickle-bytes", "pk", pk_cases(ctx.rng("pk"), ctx.scale(1500, 20000)), canon=lambda ls: [l.split(" | ")[0] for l in ls])
     ctx.stream("dest-exact", "dest", dest_cases(ctx.rng("dx"), ctx.scale(25, 300), True), monitor=dest_monitor, shrink=False,
+               canon=lambda ls: [l for l in ls if not l.startswith("maxhandoff_ms")],
                classify=lambda l, o: "pickle" if l[0].split()[1] == "1" else "plain")
     ctx.stream("dest-smallqueue", "dest", dest_cases(ctx.rng("dd"), ctx.scale(15, 200), False), monitor=dest_monitor, model=False, shrink=False,
                classify=lambda l, o: "drops" if any(x.startswith("drops") and "slow_conn=0" not in x for x in o) else "nodrops")
